@@ -219,12 +219,18 @@ func ruleC18(w *World, r *Report) {
 			r.Check(kvOf(t, "Timestamp") == hdr+".Time" && kvOf(t, "Number") == hdr+".Height" && kvOf(t, "Root") == hdr+".Root", "C18.update/consensus", "BIND", fn, fi.InstrPos(rt.Instr), "consensus state = {header.Time, header.Height, header.Root}", "consensus state is "+clip(t.String()))
 		}
 		n := 0
-		for _, c := range fi.Calls(func(c *ssa.CallCommon) bool { f := c.StaticCallee(); return f != nil && f.Name() == "SetEthHeaderIndex" }) {
+		for _, c := range fi.Calls(func(c *ssa.CallCommon) bool {
+			f := c.StaticCallee()
+			return f != nil && f.Name() == "SetEthHeaderIndex"
+		}) {
 			n++
 			a := termsOf(fi, c.Common().Args)
 			r.Check(a[0] == "$2" && strings.Contains(a[1], hdr) && strings.Contains(a[2], "MarshalInterface("+hdr+")"), "C18.update/index", "BIND", fn, fi.InstrPos(c), "header indexed under its own hash/height with its own encoding", "SetEthHeaderIndex receives "+clip(strings.Join(a, ", ")))
 		}
-		for _, c := range fi.Calls(func(c *ssa.CallCommon) bool { f := c.StaticCallee(); return f != nil && f.Name() == "SetEthConsensusRoot" }) {
+		for _, c := range fi.Calls(func(c *ssa.CallCommon) bool {
+			f := c.StaticCallee()
+			return f != nil && f.Name() == "SetEthConsensusRoot"
+		}) {
 			n++
 			a := termsOf(fi, c.Common().Args)
 			r.Check(a[0] == "$2" && strings.Contains(a[1], hdr) && strings.Contains(a[2], hdr) && strings.Contains(a[2], "Root") && strings.Contains(a[3], "rlpHash(") && strings.Contains(a[3], hdr), "C18.update/rootindex", "BIND", fn, fi.InstrPos(c), "root index written for the header's own height, root and hash", "SetEthConsensusRoot receives "+clip(strings.Join(a, ", ")))
